@@ -966,6 +966,13 @@ func (handler *Handler) PreparedStatementResponseHandler(ctx context.Context, pa
 		fieldTracker := NewPreparedStatementFieldTracker(handler, response.ColumnsNum)
 		fieldTracker.paramsNum = response.ParamsNum
 		handler.setQueryHandler(fieldTracker.ParamsTrackHandler)
+	} else if response.ColumnsNum > 0 {
+		// A statement without parameters has a column definition block all the same. It was passed by the default
+		// handler: the definitions kept the types of the database, and QueryResponseHandler was not installed at the
+		// end of the block, so that the rows of a MariaDB COM_STMT_EXECUTE -1 (which installs no handler of its own)
+		// reached the client unprocessed.
+		fieldTracker := NewPreparedStatementFieldTracker(handler, response.ColumnsNum)
+		handler.setQueryHandler(fieldTracker.ColumnsTrackHandler)
 	}
 
 	// proxy output
